@@ -155,6 +155,83 @@ def rule_cells(cx, rid, em, hm, fns):
     return r
 
 
+def rule_cells_emitted(cx, rid, em, hm, fns):
+    """the same comparison end to end: LCDWrite / LCDLine statements with literal arguments go through the emitter, the setup()
+    the emitter produces is evaluated (C semantics, helpers entered) on the cell model, and each statement must leave the
+    cells the host LCD.write / LCD.line leaves - whatever code the emitter chooses for a combination of literal arguments"""
+    import itertools
+    from .. import ckern
+    from .. import dl as dl_
+    from . import c04, c18
+    r = cx.rule(rid, "LCDWrite/LCDLine with literal arguments, through the emitter: for start columns 0 and 12, texts of 3/11/20 characters, the three alignments, clear_row True/False and both rows of a 16x2 display, evaluating the emitted setup() on the cell model leaves exactly the cells of the host LCD.write/LCD.line and never prints outside the display (the emitter may not bypass the truncating helper for some literal combination)", floor=100, exhaustive=True)
+    cls, _f = pe.ir_classes()
+    _fresh, enum = c18._anim_struct(em)
+    cases = []
+    for col, tlen, al, clr, row in itertools.product((0, 12), (3, 11, 20), ("left", "center", "right"), (True, False), (0, 1)):
+        cases.append(("write", col, row, "abcdefghijklmnopqrstuvwxyz"[:tlen], clr, al))
+    for tlen, al, clr, row in itertools.product((3, 16, 20), ("left", "center", "right"), (True, False), (0, 1)):
+        cases.append(("line", 0, row, "abcdefghijklmnopqrstuvwxyz"[:tlen], clr, al))
+    S = cls["Sleep"]
+    nodes = []
+    for i_, (kind, col, row, text, clr, al) in enumerate(cases):
+        nodes.append(S(ms=100000 + i_))
+        if kind == "write":
+            nodes.append(cls["LCDWrite"](name="dev", col=str(col), row=str(row), text='"' + text + '"', clear_row=clr, align=al))
+        else:
+            nodes.append(cls["LCDLine"](name="dev", row=str(row), text='"' + text + '"', align=al, clear_row=clr))
+    res = pe.emit_program(setup=[l2.lcd_decl("i2c")] + nodes, loop=[])
+    if res.raised:
+        raise AnalysisError(f"emit() raises for the literal LCD write program: {res.raised}")
+    body = l2.functions_of(res.text, ["setup"])["setup"][0]["body"]
+    gl = l2.global_decls(res.text)
+    env = {}
+    for nm_, (ty_, init_) in gl.items():
+        m_ = re.fullmatch(r"\s*(?:static_cast<\w+>\()?\s*(-?\d+)\s*\)?\s*", init_ or "")
+        if m_:
+            env[nm_] = int(m_.group(1))
+    for nm_ in gl:
+        env.setdefault(nm_, 0)
+    k = ckern.CallKern(fns, env=env, consts=enum, max_steps=4_000_000)
+    try:
+        k.block(body)
+    except ckern.KernUnsupported as e:
+        raise AnalysisError(f"the emitted LCD write program left the evaluable subset: {e}")
+    # split the event stream at the marker delays
+    chunks, cur = {}, None
+    for nm_, a_ in k.events:
+        if nm_ == "delay" and a_ and isinstance(a_[0], int) and a_[0] >= 100000:
+            cur = a_[0] - 100000
+            chunks[cur] = []
+        elif cur is not None:
+            chunks[cur].append((nm_, a_))
+    fill = ["ABCDEFGHIJKLMNOP", "QRSTUVWXYZ012345"]
+    n_bad = 0
+    for i_, (kind, col, row, text, clr, al) in enumerate(cases):
+        o = c04.host_object(hm, "LCD", i2c_addr=39)
+        o.buffer = list(fill)
+        try:
+            out = dl_.Interp(hm).call(hm.func("LCD.write" if kind == "write" else "LCD.line"), [o, col, row, text] if kind == "write" else [o, row, text], {"clear_row": clr, "align": al})
+        except dl_.Unsupported as e:
+            raise AnalysisError(f"host LCD.{kind} left the evaluable subset: {e}")
+        if out.kind != "return":
+            continue
+        d = Display(16, 2, fill)
+        d.feed(chunks.get(i_, []))
+        got = d.rows_text()
+        if got == o.buffer and not d.outside:
+            r.ok(None)
+        else:
+            n_bad += 1
+            if n_bad <= 3:
+                what = f"prints outside the display at {d.outside[:2]}" if d.outside else f"device rows {got}, host rows {o.buffer}"
+                call = f"lcd.write({col}, {row}, {text!r}, clear_row={clr}, align={al!r})" if kind == "write" else f"lcd.line({row}, {text!r}, align={al!r}, clear_row={clr})"
+                r.fail(f"emitted-{kind}/cells=host[{al}{',clear' if clr else ''}]", (em, em.func("_emit_block")), f"{call} on 16x2 over a filled display, through the emitter: {what}", detail={"col": col, "row": row, "text": text, "align": al, "clear_row": clr})
+            else:
+                r.stat.obligations += 1
+                r.stat.failed += 1
+    return r
+
+
 def rule_message_rows(cx, rid, em):
     """LCDMessage: top goes to row 0 and bottom to row 1 whichever of the two is present, each with its own alignment"""
     cls, _f = pe.ir_classes()
@@ -678,6 +755,7 @@ def run(cx):
 
     # ---- C17-CELLS ---------------------------------------------------------------------------
     rule_cells(cx, "C17-CELLS", em, hm, fns)
+    rule_cells_emitted(cx, "C17-CELLS-EMITTED", em, hm, fns)
 
     # ---- binding of the LCD text arms (shared with C08) ---------------------------------------
     from . import c08
